@@ -139,3 +139,10 @@ Proof.
   destruct (update_ok_lemma aid l p r Hr) as [_ H]. destruct (H n k e Hn) as [i' [a' [v [L' [C' _]]]]].
   rewrite L in L'. injection L' as <- <-. rewrite C in C'. discriminate.
 Qed.
+
+(* the thread's decimal context - flags left by earlier calls, settings of the caller - has no influence *)
+Lemma ambient_lemma : forall h a, arun a h = acalls h.
+Proof.
+  induction h as [|o r IH]; intro a; [reflexivity|].
+  destruct o as [a1|ca e]; simpl; rewrite IH; reflexivity.
+Qed.
